@@ -870,9 +870,39 @@ func (g *PG) genMacroDef() []*canon.Node {
 		def = li(sy("fn"), li(sy("x"), sy("y")), li(sy("quasiquote"), li(sy("list"), sy("callerv"), uq("x"), uq("y"))))
 		arity = -3
 	}
+	var pre []*canon.Node
+	if arity == 2 && r.Intn(6) == 0 {
+		// the expansion depends on state the expander reads and changes: every evaluation of a call expands afresh
+		g.stat("macro-stateful-expander")
+		st := name + "-state"
+		pre = append(pre, li(sy("def"), sy(st), call("atom", canon.In(0))))
+		def = li(sy("fn"), li(sy("x"), sy("y")), li(sy("do"), call("swap!", sy(st), sy("inc")), li(sy("list"), li(sy("quote"), sy("list")), sy("x"), sy("y"), call("deref", sy(st)))))
+	}
 	g.macros = append(g.macros, name)
 	g.marity[name] = arity
-	forms := []*canon.Node{li(sy("defmacro"), sy(name), def)}
+	forms := append(pre, li(sy("defmacro"), sy(name), def))
+	if arity == 2 && r.Intn(3) == 0 {
+		// one call site evaluated several times (a function body): the macro is expanded at every evaluation
+		g.stat("macro-call-site-evaluated-repeatedly")
+		user := name + "-user"
+		forms = append(forms, li(sy("def"), sy(user), li(sy("fn"), li(sy("p")), li(sy(name), sy("p"), li(sy("trace!"), canon.Ke("operand-of-"+name))))))
+		forms = append(forms, g.tr(call(user, canon.In(1))), g.tr(call(user, canon.In(2))), g.tr(call("map", sy(user), canon.Ve(canon.In(3), canon.In(4)))))
+	}
+	if arity == 2 && r.Intn(3) == 0 {
+		var others []string
+		for _, m := range g.macros[:len(g.macros)-1] {
+			if g.marity[m] == 2 {
+				others = append(others, m)
+			}
+		}
+		if len(others) > 0 {
+			// one call site whose head is a parameter bound to different macros on different calls
+			g.stat("macro-call-site-with-varying-head")
+			ch := name + "-chooser"
+			forms = append(forms, li(sy("def"), sy(ch), li(sy("fn"), li(sy("hd")), li(sy("hd"), g.tr(canon.In(1)), g.tr(canon.In(2))))))
+			forms = append(forms, g.tr(call(ch, sy(name))), g.tr(call(ch, sy(Pick(r, others)))), g.tr(call(ch, sy(name))))
+		}
+	}
 	// the same definition as an ordinary function: receives evaluated operands
 	if r.Intn(3) == 0 && arity == 2 {
 		fname := name + "-as-fn"
